@@ -10,7 +10,8 @@ open WR WR.Sexp WR.C15
   (resolve-links-before-fix …)   the function before fix 37ac465 (anchors of a page in map order)
   (oof-stack w ...)          → placed boxes (x w) of oofPass stackLeft 0 in the given order
   (grid-span (fr 1 0 ...) span ((child coord size) ...)) → tracksChildren or (panic)
-  (lang-quotes lang ((key value) ...)) → value chosen (no exact key; default "")
+  (lang-quotes lang ((key value) ...)) → GetLangQuotes (current code: exact key, else longest prefix, else the "" entry)
+  (lang-quotes-before-fix lang ((key value) ...)) → first prefix in the given order (no exact lookup; default "")
 -/
 namespace Driver.C15
 
@@ -67,8 +68,12 @@ def handle (req : Sexp) : Sexp :=
     | _, _, _ => Sexp.err "grid-span: malformed"
   | .list [.atom "lang-quotes", .str lang, .list entries] =>
     match entries.mapM getEntry with
-    | some es => ok [.str (langQuotes none "" lang es)]
+    | some es => ok [.str (langQuotes (List.lookup lang es) ((List.lookup "" es).getD "") lang es)]
     | none => Sexp.err "lang-quotes: malformed"
+  | .list [.atom "lang-quotes-before-fix", .str lang, .list entries] =>
+    match entries.mapM getEntry with
+    | some es => ok [.str (langQuotesBeforeFix none "" lang es)]
+    | none => Sexp.err "lang-quotes-before-fix: malformed"
   | _ => Sexp.err "unknown request"
 
 end Driver.C15
